@@ -113,6 +113,11 @@ func WaitDone(done <-chan struct{}, grace time.Duration) bool {
 	}
 }
 
+// MaxScale multiplies the wall-clock limit of AwaitQuiet (the limit whose
+// expiry is inconclusive; the quiet period that decides a stall is not
+// scaled).  The engine sets it per tier in every child.
+var MaxScale = 1.0
+
 // AwaitQuiet waits for done.  It returns (true, _) when done was closed.
 // Otherwise it watches progress(), a monotone counter of logical events
 // (calls, returns, bytes moved, stanzas seen by the peer): when the counter
@@ -121,7 +126,7 @@ func WaitDone(done <-chan struct{}, grace time.Duration) bool {
 // when max elapses while events still happen it returns (false, false), which
 // is inconclusive (slow machine), never a stall.
 func AwaitQuiet(done <-chan struct{}, progress func() int64, quiet, max time.Duration) (finished, quiescent bool) {
-	deadline := time.Now().Add(max)
+	deadline := time.Now().Add(time.Duration(float64(max) * MaxScale))
 	last := progress()
 	lastChange := time.Now()
 	tick := time.NewTicker(200 * time.Millisecond)
